@@ -1,6 +1,7 @@
 package art
 
 import (
+	"bytes"
 	"encoding/binary"
 	"math"
 	"math/bits"
@@ -33,7 +34,8 @@ type CollationOrderKey[K chars | []rune] struct {
 func (cok *CollationOrderKey[K]) Transform(k K) ([]byte, []byte) {
 	cok.src = k
 	b := []byte(string(k))
-	return b, cok.c.Key(cok.buf, b)
+	cok.buf.Reset()
+	return b, bytes.Clone(cok.c.Key(cok.buf, b))
 }
 func (cok *CollationOrderKey[K]) Restore(b []byte) K { return cok.src }
 
